@@ -520,11 +520,18 @@ def equiv(original, loaded, dialect, loader=None, opts=None):
                 return Difference(path, f"type-set-{tn(l)}", f"{o!r} came back as {tn(l)} {l!r}")
             oe = sorted(o, key=repr)
             le = sorted(l, key=repr)
-            if folding and len(oe) > len(le):
-                # elements that the allowed folding makes equal collapse into one element of the loaded set
+            if len(oe) > len(le):
+                # elements that an allowed normalisation makes equal collapse into one element of the loaded set:
+                # folded strings (ODL-family readers), a naive time and the same time in UTC (readers with a default zone)
+                def canon_elem(a):
+                    if isinstance(a, str) and folding:
+                        return fold(a)
+                    if zone and isinstance(a, (dt.time, dt.datetime)) and a.utcoffset() is None:
+                        return a.replace(tzinfo=dt.timezone.utc)
+                    return a
                 seen, ded = set(), []
                 for a in oe:
-                    f = fold(a) if isinstance(a, str) else a
+                    f = canon_elem(a)
                     if (type(f).__name__, f) not in seen:
                         seen.add((type(f).__name__, f))
                         ded.append(a)
